@@ -28,6 +28,7 @@ def run(F, X, rep):
     r1(F, X, rep)
     r2(F, X, rep)
     r3(F, X, rep)
+    t_id_type(F, X, rep)
     w(F, X, rep)
     p(F, X, rep)
 
@@ -312,6 +313,27 @@ def r3(F, X, rep):
     # positive control for the name patterns: the reader's next() exists
     nx = [c for b in F.code_bodies() if "src/cln_plugin/" in b.span.get("f", "") for c in b.calls if c.name in ("tokio_stream::StreamExt::next", "futures::StreamExt::next") and "FramedRead" in c.full]
     rep.anchor(rid, "StreamExt::next on the FramedRead", len(nx), 1)
+
+
+def t_id_type(F, X, rep):
+    rid = "C17-T"
+    rep.rule(rid, "a request's id is carried as an arbitrary JSON value (JSON-RPC ids are strings or numbers): every `id` of the plugin's message types is serde_json::Value")
+    n = 0
+    for name, adt in sorted(F.adts.items()):
+        if not name.startswith("cln_plugin::") or "::test" in name:
+            continue
+        for v in adt.get("variants", []):
+            fs = v.get("fields", [])
+            for i, f in enumerate(fs):
+                is_id = f["n"] in ("id", "init_id") or (name.endswith("::JsonRpc") and v.get("n", v.get("name", "")) in ("Request", "CustomRequest") and i == 0)
+                if not is_id:
+                    continue
+                n += 1
+                t = f["ty"].replace(" ", "")
+                ok = t in ("serde_json::Value", "std::option::Option<serde_json::Value>")
+                rep.ob(rid, ok, name, "id field %s.%s is a JSON value" % (v.get("n", v.get("name", "?")), f["n"]), how=f["ty"],
+                       detail="" if ok else "%s.%s has type %s: a request whose id is not of that JSON type fails to decode - the reader loop ends and neither it nor any pending request is answered" % (name.split("::")[-1], f["n"], f["ty"]), nontrivial=False)
+    rep.anchor(rid, "id fields of the plugin's message types", n, 3)
 
 
 def lib_transparent():
